@@ -216,3 +216,59 @@ func VH_C20_scrape_during_lookup() {
 	verifAssert("C20.lookup.no-time-under-disabled-label", verifCounterValue(c.tunnelTimePerLocation, "ns", "", "", "") == 0)
 	verifReach("C20.lookup.done", true)
 }
+
+// a database that answers per address (by the parity of its last byte, with one address it
+// fails on and one it has no country for)
+type verifPerAddrDB struct{ calls int }
+
+func verifWantInfo(last byte) (ipinfo.IPInfo, bool) {
+	switch {
+	case last == 9:
+		return ipinfo.IPInfo{}, false
+	case last == 8:
+		return ipinfo.IPInfo{ASN: ipinfo.ASN{Number: 64508, Organization: "Org-8"}}, true
+	case last%2 == 0:
+		return ipinfo.IPInfo{CountryCode: "AA", ASN: ipinfo.ASN{Number: 64500, Organization: "Org-even"}}, true
+	}
+	return ipinfo.IPInfo{CountryCode: "BB", ASN: ipinfo.ASN{Number: 64501, Organization: "Org-odd"}}, true
+}
+
+func (d *verifPerAddrDB) GetIPInfo(ip net.IP) (ipinfo.IPInfo, error) {
+	d.calls++
+	info, ok := verifWantInfo(ip[len(ip)-1])
+	if !ok {
+		return info, errors.New("db failure")
+	}
+	return info, nil
+}
+
+// the location of every client is the database's answer for that very address, whatever other
+// clients (neighbours in the same network included) were seen before
+func VH_C20_answer_per_address() {
+	db := &verifPerAddrDB{}
+	m, _ := NewServiceMetrics(db)
+	lasts := []byte{4, 5, 8, 9, 6}
+	n := 2 + verifChoice("clients", 2)
+	for i := 0; i < n; i++ {
+		last := lasts[verifChoice("last-byte", len(lasts))]
+		third := byte(113)
+		if verifFlag("other-network") {
+			third = 114
+		}
+		var addr net.Addr = &net.TCPAddr{IP: net.IP{203, 0, third, last}, Port: 50000 + i}
+		if verifFlag("udp") {
+			addr = &net.UDPAddr{IP: net.IP{203, 0, third, last}, Port: 50000 + i}
+		}
+		got := m.getIPInfoFromAddr(addr)
+		want, ok := verifWantInfo(last)
+		switch {
+		case !ok:
+			verifAssert("C20.per-address.db-error-is-XD", got.CountryCode == "XD")
+		case want.CountryCode == "":
+			verifAssert("C20.per-address.no-country-is-ZZ", got.CountryCode == "ZZ" && got.ASN.Number == want.ASN.Number)
+		default:
+			verifAssert("C20.per-address.database-answer", got.CountryCode == want.CountryCode && got.ASN.Number == want.ASN.Number)
+		}
+	}
+	verifReach("C20.per-address.done", true)
+}
